@@ -28,6 +28,7 @@ SizesAll   == {0, 1, 2, 3, 4, 5, 6} \* ... 16 KiB-1 ... 1 MiB
 Large      == {2, 3, 4, 5, 6}       \* the line is longer than 16 KiB
 NoFaults   == {}
 FaultsAll  == {1, 2, 3}
+FaultsErr  == {1}
 LevelsOne  == {8}
 LevelsTwo  == {0, 8}
 =============================================================================
